@@ -2,7 +2,7 @@
    whose behaviours only observe, and every guard valuation, `run` of the back engine is the specification of Spec.v
    applied operation by operation: same behaviour invocations in the same order with the same arguments, same reported
    configuration after every operation, and a result code whose handled bit / zero-ness is the specified outcome. *)
-From Msm Require Import Run Lemmas_C19 Lemmas_Rows Lemmas_Sim Spec Lemmas_SpecBack.
+From Msm Require Import Run Lemmas_C19 Lemmas_Rows Lemmas_Sim Spec Lemmas_SpecBack Lemmas_SpecMp11.
 From Coq Require Import Lia.
 
 Lemma snapshot_abs : forall mc rn path, snapshot mc rn path = sp_snapshot mc (abs rn) path.
@@ -46,14 +46,14 @@ Qed.
 
 Theorem back_run_op o rn : plain_op o -> ok root rn ->
   let '(rn', tr) := run_op cf root (build cf parents false root) fuel rn o in
-  ok root rn' /\ op_result_ok o (sp_op (c_pol cf) root o (abs rn)) tr (abs rn').
+  ok root rn' /\ op_result_ok o (sp_op_gen false (c_pol cf) root o (abs rn)) tr (abs rn').
 Proof.
-  intros Hplain Hok. destruct o as [val plan|plan|e val plan| | | | | | | | |]; try contradiction; cbn [run_op sp_op].
+  intros Hplain Hok. destruct o as [val plan|plan|e val plan| | | | | | | | |]; try contradiction; cbn [run_op sp_op_gen].
   - (* start *)
     destruct plan; [|contradiction].
     destruct (sim_run_m _ rn val _ (back_start cf Hbe Hnofct parents Hflat val Hstartq root Hcore fuel rn Hok ltac:(lia)))
       as (rn' & items & E & Hok' & Hs).
-    rewrite E. split; [exact Hok'|]. unfold op_result_ok. rewrite <- Hs. auto.
+    rewrite E. split; [exact Hok'|]. unfold op_result_ok. unfold sp_start in Hs. rewrite <- Hs. auto.
   - destruct plan; [|contradiction].
     destruct (sim_run_m _ rn [] _ (back_stop cf Hbe Hnofct parents Hflat [] root Hcore fuel rn Hok))
       as (rn' & items & E & Hok' & Hs).
@@ -67,10 +67,10 @@ Proof.
 Qed.
 
 (* every history *)
-Fixpoint sp_run (pol:nat) (mc:machine) (c:conf) (l:list op) : list (list titem * option (bool * bool) * list (list nat * list nat)) :=
+Fixpoint sp_run (stale:bool) (pol:nat) (mc:machine) (c:conf) (l:list op) : list (list titem * option (bool * bool) * list (list nat * list nat)) :=
   match l with
   | [] => []
-  | o :: t => let '(items, out, c') := sp_op pol mc o c in (items, out, sp_snapshot mc c' []) :: sp_run pol mc c' t
+  | o :: t => let '(items, out, c') := sp_op_gen stale pol mc o c in (items, out, sp_snapshot mc c' []) :: sp_run stale pol mc c' t
   end.
 
 Definition step_ok (spec:list titem * option (bool * bool) * list (list nat * list nat)) (got:list titem * list (list nat * list nat)) : Prop :=
@@ -82,15 +82,271 @@ Definition step_ok (spec:list titem * option (bool * bool) * list (list nat * li
   end.
 
 Theorem back_run_ops : forall l rn, Forall plain_op l -> ok root rn ->
-  Forall2 step_ok (sp_run (c_pol cf) root (abs rn) l) (run_ops cf root (build cf parents false root) fuel rn l).
+  Forall2 step_ok (sp_run false (c_pol cf) root (abs rn) l) (run_ops cf root (build cf parents false root) fuel rn l).
 Proof.
   induction l as [|o t IH]; intros rn Hall Hok; cbn [sp_run run_ops]; [constructor|].
   inversion Hall as [|? ? Ho Ht]; subst.
   pose proof (back_run_op o rn Ho Hok) as H.
   destruct (run_op cf root (build cf parents false root) fuel rn o) as [rn' tr]. destruct H as (Hok' & Hres).
-  destruct (sp_op (c_pol cf) root o (abs rn)) as [[items out] c'] eqn:Eo. cbn in Hres. destruct Hres as (Hc & Hres).
+  destruct (sp_op_gen false (c_pol cf) root o (abs rn)) as [[items out] c'] eqn:Eo. cbn in Hres. destruct Hres as (Hc & Hres).
   constructor.
   - unfold step_ok. cbn [fst snd]. split; [rewrite snapshot_abs, Hc; reflexivity | exact Hres].
   - rewrite <- Hc. apply IH; assumption.
 Qed.
 End BackRun.
+
+(* ---- backmp11 ---- *)
+(* histories in which start() and stop() alternate (backmp11 ignores start() of a started machine and stop() of a
+   stopped one, back does not) and events are sent to a started machine *)
+Fixpoint bracketed (started:bool) (l:list op) : Prop :=
+  match l with
+  | [] => True
+  | o :: t =>
+      match o, started with
+      | OStart _ [], false => bracketed true t
+      | OStop [], true => bracketed false t
+      | OProcess e _ [], true => e_ty e <> EV_NONE /\ bracketed true t
+      | _, _ => False
+      end
+  end.
+Lemma bracketed_plain : forall l b, bracketed b l -> Forall plain_op l.
+Proof.
+  induction l as [|o t IH]; intros b H; [constructor|]. cbn in H.
+  destruct o as [val plan|plan|e val plan| | | | | | | | |]; try contradiction.
+  - destruct plan; [|contradiction]. destruct b; [contradiction|]. constructor; [exact I | eapply IH; eauto].
+  - destruct plan; [|contradiction]. destruct b; [|contradiction]. constructor; [exact I | eapply IH; eauto].
+  - destruct plan; [|contradiction]. destruct b; [|contradiction]. destruct H as (He & H). constructor; [exact He | eapply IH; eauto].
+Qed.
+
+Section Mp11Run.
+Variable cf : cfg.
+Hypothesis Hbe : c_be cf = Mp11.
+Variable parents : list (option nat).
+Hypothesis Hflat : forall e, nth e parents None = None.
+Hypothesis Hresets : mp11_entry_throw_resets = true.
+Variable root : machine.
+Hypothesis Hcore : core root.
+Hypothesis Hnohist : m_hist root = HNone.
+Variable fuel : nat.
+Hypothesis Hfuel : depth root + 2 <= fuel.
+
+Lemma msim_run_m (m:M unit) rn val (P:unit -> rnode -> list titem -> Prop) :
+  sim val m rn P -> exists rn' items, run_m m rn val [] = (rn', rev items) /\ P tt rn' items.
+Proof.
+  intros H. destruct (H (Glob [] 0 [] val [] 0)) as ([] & rn' & items & E & HP).
+  { repeat split. }
+  exists rn', items. unfold run_m. rewrite E. cbn. rewrite app_nil_r. auto.
+Qed.
+
+Theorem mp11_run_ops : forall l rn started, bracketed started l -> okm root rn -> running rn = started ->
+  Forall2 step_ok (sp_run true (c_pol cf) root (abs rn) l) (run_ops cf root (build cf parents false root) fuel rn l).
+Proof.
+  induction l as [|o t IH]; intros rn started Hb Hok Hrun; cbn [sp_run run_ops]; [constructor|].
+  cbn in Hb. destruct o as [val plan|plan|e val plan| | | | | | | | |]; try contradiction.
+  - (* start *)
+    destruct plan; [|contradiction]. destruct started; [contradiction|]. cbn [run_op sp_op_gen]. rewrite abs_act.
+    destruct (msim_run_m _ rn val _ (mp11_start cf Hbe parents Hflat val Hresets root Hcore Hnohist fuel rn Hok Hrun ltac:(lia)))
+      as (rn' & items & E & Hok' & Hr' & Hs).
+    rewrite E. rewrite <- Hs. constructor.
+    + unfold step_ok. cbn [fst snd]. split; [apply snapshot_abs | reflexivity].
+    + eapply IH; eauto.
+  - destruct plan; [|contradiction]. destruct started; [|contradiction]. cbn [run_op sp_op_gen].
+    destruct (msim_run_m _ rn [] _ (mp11_stop cf Hbe parents Hflat [] Hresets root Hcore fuel rn Hok Hrun))
+      as (rn' & items & E & Hok' & Hr' & Hs).
+    rewrite E. rewrite <- Hs. constructor.
+    + unfold step_ok. cbn [fst snd]. split; [apply snapshot_abs | reflexivity].
+    + eapply IH; eauto.
+  - destruct plan; [|contradiction]. destruct started; [|contradiction]. destruct Hb as (He & Hb). cbn [run_op sp_op_gen].
+    pose proof (mp11_process_event cf Hbe parents Hflat val Hresets root Hcore fuel e rn Hok Hrun Hfuel He) as Hs.
+    destruct (Hs (Glob [] 0 [] val [] 0)) as (code & rn' & items & E & Hok' & Hr' & Hi & Hc & Hcode).
+    { repeat split. }
+    unfold run_m, bind, direct_code. rewrite Hbe. rewrite E. cbn. rewrite app_nil_r. constructor.
+    + unfold step_ok. cbn [fst snd]. split; [rewrite snapshot_abs, Hc; reflexivity|]. exists code. rewrite Hi. auto.
+    + rewrite <- Hc. eapply IH; eauto.
+Qed.
+End Mp11Run.
+
+(* ---- back and backmp11 side by side ---- *)
+(* what the two engines may differ in: the exact result code, of which only the handled bit and zero-ness are specified,
+   and what the outermost machine's own entry behaviour reads from its fsm argument when a stopped machine is started
+   again (Spec.sp_start_obs) *)
+Definition same_step (b m:list titem * list (list nat * list nat)) : Prop :=
+  snd b = snd m /\
+  (fst b = fst m \/
+   (exists items cb cm h rj, fst b = items ++ [Res cb] /\ fst m = items ++ [Res cm] /\ code_ok cb h rj /\ code_ok cm h rj) \/
+   (exists ev w ids1 ids2 rest, fst b = Cb KMEntry [] 0 ev w ids1 :: rest /\ fst m = Cb KMEntry [] 0 ev w ids2 :: rest)).
+
+(* the two readings of the specification side by side *)
+Definition same_spec (sb sm:list titem * option (bool * bool) * list (list nat * list nat)) : Prop :=
+  snd sb = snd sm /\ snd (fst sb) = snd (fst sm) /\
+  (fst (fst sb) = fst (fst sm) \/
+   (snd (fst sb) = None /\
+    exists ev w ids1 ids2 rest, fst (fst sb) = Cb KMEntry [] 0 ev w ids1 :: rest /\ fst (fst sm) = Cb KMEntry [] 0 ev w ids2 :: rest)).
+
+Lemma sp_op_gen_conf pol mc o c : snd (sp_op_gen true pol mc o c) = snd (sp_op_gen false pol mc o c).
+Proof.
+  destruct o; cbn [sp_op_gen]; try reflexivity. unfold sp_start_obs.
+  destruct (sp_enter mc (Evt EV_INIT 0) (c_set_act c (m_inits mc))); reflexivity.
+Qed.
+
+Lemma sp_run_same pol mc : forall l c, Forall2 same_spec (sp_run false pol mc c l) (sp_run true pol mc c l).
+Proof.
+  induction l as [|o t IH]; intros c; cbn [sp_run]; [constructor|].
+  pose proof (sp_op_gen_conf pol mc o c) as Hc.
+  destruct (sp_op_gen false pol mc o c) as [[i1 o1] c1] eqn:E1. destruct (sp_op_gen true pol mc o c) as [[i2 o2] c2] eqn:E2.
+  cbn [snd] in Hc. subst c2. constructor; [|apply IH].
+  unfold same_spec. cbn [fst snd]. split; [reflexivity|].
+  destruct o; cbn [sp_op_gen] in E1, E2; try (rewrite E1 in E2; inversion E2; subst; auto; fail).
+  unfold sp_start_obs in E1, E2. destruct (sp_enter mc (Evt EV_INIT 0) (c_set_act c (m_inits mc))) as [items cc].
+  inversion E1; inversion E2; subst. split; [reflexivity|]. right. split; [reflexivity|].
+  rewrite !rev_app_distr. cbn [rev app]. eauto 10.
+Qed.
+
+Lemma step_ok_same sb sm b m : same_spec sb sm -> step_ok sb b -> step_ok sm m -> same_step b m.
+Proof.
+  destruct sb as [[ib ob] snb]. destruct sm as [[im om] snm]. unfold same_spec, step_ok, same_step. cbn [fst snd].
+  intros (Hs & Ho & Hi) (Hb1 & Hb2) (Hm1 & Hm2). subst snm om. split; [congruence|].
+  destruct Hi as [Hi|(Hn & ev & w & ids1 & ids2 & rest & Eb & Em)].
+  - subst im. destruct ob as [[h rj]|].
+    + destruct Hb2 as (cb & Eb & Cb). destruct Hm2 as (cm & Em & Cm). right. left. exists ib, cb, cm, h, rj. auto.
+    + left. congruence.
+  - subst ob. right. right. exists ev, w, ids1, ids2, rest. split; congruence.
+Qed.
+Lemma Forall2_same : forall sbs sms bs ms, Forall2 same_spec sbs sms -> Forall2 step_ok sbs bs -> Forall2 step_ok sms ms ->
+  Forall2 same_step bs ms.
+Proof.
+  induction sbs as [|sb t IH]; intros sms bs ms Hs Hb Hm; inversion Hs; subst; inversion Hb; inversion Hm; subst; constructor.
+  - eapply step_ok_same; eauto.
+  - eapply IH; eauto.
+Qed.
+
+(* back and backmp11 (any dispatch strategy, any compile policy of backmp11), the same switch policy: for every core
+   definition whose outermost machine has no history of its own, every history of alternating start() / stop() with
+   events in between, every guard valuation: same behaviour invocations in the same order with the same arguments, same
+   active ids at every level after every operation, same handled / rejected status *)
+Theorem back_mp11_same_behaviour : forall cfB cfM md l,
+  c_be cfB = Back -> c_fct cfB = false -> c_be cfM = Mp11 -> c_pol cfB = c_pol cfM ->
+  (forall e, nth e (md_parents md) None = None) -> core (md_root md) -> m_hist (md_root md) = HNone ->
+  depth (md_root md) + 2 <= default_fuel ->
+  back_start_queues = true -> mp11_entry_throw_resets = true ->
+  bracketed false l ->
+  Forall2 same_step (run cfB md l) (run cfM md l).
+Proof.
+  intros cfB cfM md l HB HnB HM Hpol Hflat Hcore Hh Hfuel Hq Hr Hbr. unfold run.
+  eapply Forall2_same.
+  - apply sp_run_same.
+  - apply (back_run_ops cfB HB HnB (md_parents md) Hflat Hq (md_root md) Hcore default_fuel Hfuel l (init_rnode (md_root md))).
+    + eapply bracketed_plain; eauto.
+    + apply ok_init.
+  - rewrite Hpol.
+    apply (mp11_run_ops cfM HM (md_parents md) Hflat Hr (md_root md) Hcore Hh default_fuel Hfuel l (init_rnode (md_root md)) false Hbr).
+    + apply okm_init.
+    + destruct (md_root md); reflexivity.
+Qed.
+
+(* a history with one start(): nothing but the exact result code can differ *)
+Definition not_start (o:op) : Prop := match o with OStart _ _ => False | _ => True end.
+Definition one_start (l:list op) : Prop := match l with _ :: t => Forall not_start t | [] => True end.
+
+Definition same_step_strict (b m:list titem * list (list nat * list nat)) : Prop :=
+  snd b = snd m /\
+  (fst b = fst m \/
+   exists items cb cm h rj, fst b = items ++ [Res cb] /\ fst m = items ++ [Res cm] /\ code_ok cb h rj /\ code_ok cm h rj).
+
+Lemma sp_run_nostart pol mc : forall l c, Forall not_start l -> sp_run true pol mc c l = sp_run false pol mc c l.
+Proof.
+  induction l as [|o t IH]; intros c H; cbn [sp_run]; [reflexivity|]. inversion H as [|? ? Ho Ht]; subst.
+  assert (E : sp_op_gen true pol mc o c = sp_op_gen false pol mc o c) by (destruct o; try reflexivity; contradiction).
+  rewrite E. destruct (sp_op_gen false pol mc o c) as [[i out] c']. rewrite IH by assumption. reflexivity.
+Qed.
+Lemma sp_run_fresh pol mc l c : c_act c = m_inits mc -> one_start l -> sp_run true pol mc c l = sp_run false pol mc c l.
+Proof.
+  intros Hc H. destruct l as [|o t]; [reflexivity|]. cbn [one_start] in H. cbn [sp_run].
+  assert (E : sp_op_gen true pol mc o c = sp_op_gen false pol mc o c) by (destruct o; try reflexivity; cbn [sp_op_gen]; rewrite Hc; reflexivity).
+  rewrite E. destruct (sp_op_gen false pol mc o c) as [[i out] c']. rewrite sp_run_nostart by assumption. reflexivity.
+Qed.
+
+Lemma step_ok_same_strict sp b m : step_ok sp b -> step_ok sp m -> same_step_strict b m.
+Proof.
+  destruct sp as [[items out] snap]. unfold step_ok, same_step_strict. intros (Hb1 & Hb2) (Hm1 & Hm2). split; [congruence|].
+  destruct out as [[h rj]|].
+  - destruct Hb2 as (cb & Eb & Cb). destruct Hm2 as (cm & Em & Cm). right. exists items, cb, cm, h, rj. auto.
+  - left. congruence.
+Qed.
+Lemma Forall2_same_strict : forall sps bs ms, Forall2 step_ok sps bs -> Forall2 step_ok sps ms -> Forall2 same_step_strict bs ms.
+Proof.
+  induction sps as [|sp t IH]; intros bs ms Hb Hm; inversion Hb; inversion Hm; subst; constructor.
+  - eapply step_ok_same_strict; eauto.
+  - eapply IH; eauto.
+Qed.
+
+Theorem back_mp11_same_behaviour_one_start : forall cfB cfM md l,
+  c_be cfB = Back -> c_fct cfB = false -> c_be cfM = Mp11 -> c_pol cfB = c_pol cfM ->
+  (forall e, nth e (md_parents md) None = None) -> core (md_root md) -> m_hist (md_root md) = HNone ->
+  depth (md_root md) + 2 <= default_fuel ->
+  back_start_queues = true -> mp11_entry_throw_resets = true ->
+  bracketed false l -> one_start l ->
+  Forall2 same_step_strict (run cfB md l) (run cfM md l).
+Proof.
+  intros cfB cfM md l HB HnB HM Hpol Hflat Hcore Hh Hfuel Hq Hr Hbr H1. unfold run.
+  eapply Forall2_same_strict.
+  - apply (back_run_ops cfB HB HnB (md_parents md) Hflat Hq (md_root md) Hcore default_fuel Hfuel l (init_rnode (md_root md))).
+    + eapply bracketed_plain; eauto.
+    + apply ok_init.
+  - rewrite Hpol. rewrite <- sp_run_fresh.
+    + apply (mp11_run_ops cfM HM (md_parents md) Hflat Hr (md_root md) Hcore Hh default_fuel Hfuel l (init_rnode (md_root md)) false Hbr).
+      * apply okm_init.
+      * destruct (md_root md); reflexivity.
+    + destruct (md_root md); reflexivity.
+    + exact H1.
+Qed.
+
+(* ---- the statements the property files quote ---- *)
+Definition flat_events (md:mdef) : Prop := forall e, nth e (md_parents md) None = None.
+Definition spec_run (stale:bool) (pol:nat) (md:mdef) (l:list op) :=
+  sp_run stale pol (md_root md) (abs (init_rnode (md_root md))) l.
+
+Theorem back_run_is_spec : forall cf md l,
+  c_be cf = Back -> c_fct cf = false -> flat_events md -> core (md_root md) -> depth (md_root md) + 2 <= default_fuel ->
+  back_start_queues = true -> Forall plain_op l ->
+  Forall2 step_ok (spec_run false (c_pol cf) md l) (run cf md l).
+Proof.
+  intros cf md l HB HnB Hflat Hcore Hfuel Hq Hpl. unfold run, spec_run.
+  apply (back_run_ops cf HB HnB (md_parents md) Hflat Hq (md_root md) Hcore default_fuel Hfuel l (init_rnode (md_root md)) Hpl).
+  apply ok_init.
+Qed.
+
+Theorem mp11_run_is_spec : forall cf md l,
+  c_be cf = Mp11 -> flat_events md -> core (md_root md) -> m_hist (md_root md) = HNone ->
+  depth (md_root md) + 2 <= default_fuel -> mp11_entry_throw_resets = true -> bracketed false l ->
+  Forall2 step_ok (spec_run true (c_pol cf) md l) (run cf md l).
+Proof.
+  intros cf md l HM Hflat Hcore Hh Hfuel Hr Hbr. unfold run, spec_run.
+  apply (mp11_run_ops cf HM (md_parents md) Hflat Hr (md_root md) Hcore Hh default_fuel Hfuel l (init_rnode (md_root md)) false Hbr).
+  - apply okm_init.
+  - destruct (md_root md); reflexivity.
+Qed.
+
+(* a definition and a history inside the hypotheses (used by the Examples of the property files) *)
+Definition ex_core_sub : machine :=
+  Machine [State KSimple None [] [] [] 0; State KSimple None [Row 13 1 (TrEv 5) TgNone true ActCall None] [] [] 0;
+           State KSimple None [] [] [] 1; State KSimple None [] [] [] 1]
+          [0; 2]
+          [Row 10 0 (TrEv 6) (TgState 1) true ActCall None; Row 11 2 (TrEv 6) (TgState 3) true ActCall None;
+           Row 12 1 (TrEv 6) (TgState 0) false ActNone None]
+          [] HAlways.
+Definition ex_core_md : mdef :=
+  MDef (Machine [State KSimple None [] [] [] 0; State KSub (Some ex_core_sub) [] [] [] 0; State KSimple None [] [] [] 0]
+                [0]
+                [Row 1 0 (TrEv 4) (TgState 1) true ActCall None; Row 2 1 (TrEv 5) (TgState 2) true ActCall None;
+                 Row 3 2 (TrEv 4) (TgState 1) false ActCall None; Row 4 1 (TrEv 6) (TgState 0) true ActCall None]
+                [] HNone) [].
+Definition ex_core_ops : list op :=
+  [OStart [] []; OProcess (Evt 4 0) [1] []; OProcess (Evt 6 0) [10; 4] []; OProcess (Evt 5 0) [13] []; OProcess (Evt 5 0) [2] [];
+   OProcess (Evt 4 0) [] []; OProcess (Evt 6 0) [] []; OProcess (Evt 7 0) [] []; OStop []; OStart [] []; OProcess (Evt 4 0) [1] []].
+
+Lemma ex_core_ok : core (md_root ex_core_md).
+Proof.
+  cbn. repeat first [ split | discriminate | reflexivity | (eexists; split; [reflexivity|discriminate])
+                    | (left; reflexivity) | (right; eexists; reflexivity) | apply Forall_nil | apply Forall_cons ].
+Qed.
